@@ -585,6 +585,10 @@ def _run(ctx):
     apply_chains(ctx, "C20.e")
     from ._chains import transparent_deprecated
     transparent_deprecated(ctx, "C20.c")          # (a deprecated setting name reads the same default and writes the same attribute)
+    # ---- C20.t10 "applies the documented interpretation of each pair": what the CLI assigned is what apply() encodes - apply() takes its snapshot
+    # of the attributes before it first suspends and stores none of them itself (C10.g), re-run here
+    from . import c10
+    ctx.import_rules(c10, "t10", only=("C10.g",))
     # ---- C20.t4 "display via toggle only when it differs": the toggle is not idempotent, so the one toggle the CLI decides on must not be
     # retransmitted because its reply was dropped on the way up (lost in reassembly, the exchange then times out and resends).  The reassembly
     # premises of C04 (both data_received implementations deliver every complete packet, whatever the segmentation) are re-run here.
